@@ -192,6 +192,16 @@ def cases(rng, tier):
                 b = np.asarray(b + 0.013)
             yield (nm, fn, [a, b], dict(shapes=(sa, sb)), None)
         yield (nm, (lambda fn=fn: lambda a: fn(a, a))(), [V((2, 3), **{k: v for k, v in kw.items()})] if nm not in ("maximum", "minimum") else [DV((2, 3))], dict(repeated_operand=True), None) if nm not in ("maximum", "minimum") else (nm + "-tie-self", (lambda fn=fn: lambda a: fn(a, a))(), [DV((2, 3))], dict(repeated_operand=True, convention="ties->0"), "TIES")
+    # corners of the domain where the derivative exists although the generic formula needs care: zero (and negative) bases under
+    # exponents that are exact positive integers -- x**1 is x, x**2 is x*x, ...: d/dx exists everywhere
+    zb = np.array([[0.0, 1.5, 0.0], [2.0, 0.0, -1.25]])
+    for ev in (np.array([1.0, 2.0, 3.0]), np.array(1.0), np.array(2.0), np.array([[1.0], [3.0]])):
+        yield ("power", lambda a, e: mg.power(a, e), [zb.copy(), ev], dict(corner="zero/negative base, exact integer exponent", exponent=np.asarray(ev).tolist()), [0])
+    yield ("power", lambda a: mg.power(a, 1.0), [zb.copy()], dict(corner="zero base, python exponent 1.0"), None)
+    yield ("power", lambda a: mg.power(a, 3), [zb.copy()], dict(corner="zero base, python exponent 3"), None)
+    yield ("multiply", lambda a, c: mg.multiply(a, c), [zb.copy(), zb.T.copy().T * 0.0], dict(corner="zero operands"), None)
+    yield ("square", lambda a: mg.square(a), [zb.copy()], dict(corner="zero operand"), None)
+    yield ("cbrt-away", lambda a: mg.cbrt(a), [np.array([1.0, -8.0, 0.125])], dict(corner="negative operand"), None)
     # where= mask with out= (in-place semantics): masked-out positions keep/flow to old contents
     def masked(fn):
         def f(a, b, o):
